@@ -32,7 +32,7 @@ def describe(tier):
         'assumptions': ['crash model of the property: before/after each mutation; no reordering of writes across files, no torn write inside an 8 KiB chunk',
                         'each CLI command is a separate process: a fresh client component per command',
                         'a crashed create-service is retried as a new service (its sid was never reported to the user)'],
-        'must_be_nonzero': ['crash-points', 'server-crashes', 'client-crashes', 'multi-chunk-writes', 'retries', 'final-searches'],
+        'must_be_nonzero': ['crash-points', 'server-crashes', 'client-crashes', 'multi-chunk-writes', 'retries', 'final-searches', 'sigkill-replays'],
     }
 
 
@@ -299,6 +299,21 @@ def run_unit(p, tier, seed):
     pts = crash_points(ops)
     r.count('mutations-recorded', sum(len(v) for v in ops.values()))
     r.count('server-mutations', sum(len(v) for c, v in ops.items() if c.startswith('server')))
+    if p.get('sigkill') is not None:
+        from mc import loopback
+        cand = [x for x in pts if x['step'] in ('create', 'genkey', 'encrypt')]
+        sel = cand if p['sigkill'] == 'all' else cand[::max(1, len(cand) // 8)][:8]
+        n, bad = loopback.sigkill_replays(seed, wl[1], wl[2], sel)
+        r.count('sigkill-replays', n)
+        r['evaluations'] += n
+        r['traces'] += n
+        for b in bad:
+            r.v(PROPERTY, 'harness', 'virtual-vs-sigkill-disagreement', 'crashfs', {'workload': wl[0], 'point': b['point']},
+                'same directory tree after the virtual kill and after a real SIGKILL', b)
+        r.outcome('sigkill-agrees' if not bad else 'sigkill-disagrees')
+        r.sample({'sigkill_replay': sel[0] if sel else None}, limit=1)
+        det.restore()
+        return r
     todo = pts if 'only' not in p else [pts[i] for i in p['only']]
     for pt in todo:
         run_crash(r, seed, wl, pt)
@@ -318,6 +333,8 @@ def _expand(units_list, tier, seed):
             continue
         for lo in range(0, n, 6):
             out.append(('%s/%d' % (uid, lo), dict(p, only=list(range(lo, min(lo + 6, n))))))
+        if wl[0] == 'PiBas-small':
+            out.append(('%s/sigkill' % uid, dict(p, sigkill=('all' if tier != 'quick' else 'some'))))
     return out
 
 
@@ -338,5 +355,11 @@ def main(tier):
 
 def replay(case, seed):
     r = core.Result()
+    if 'point' in case:
+        from mc import loopback
+        n, bad = loopback.sigkill_replays(seed, 'CJJ14.PiBas', 'small', [case['point']])
+        for b in bad:
+            r.v(PROPERTY, 'harness', 'virtual-vs-sigkill-disagreement', 'crashfs', case, 'same tree', b)
+        return r['violations']
     run_crash(r, seed, (case['workload'], case['scheme'], case['db']), case['crash'])
     return r['violations']
